@@ -60,6 +60,8 @@ pub struct Profile {
     pub props_pct: u32,
     pub max_conns: usize,
     pub dead_ops_max: usize,
+    /// chance (percent) that an operation issued on a dead handle is an invalid request
+    pub dead_invalid_pct: u32,
     pub hostile_broker: bool,
     pub will_pct: u32,
     pub auth_pct: u32,
@@ -129,6 +131,7 @@ impl Default for Profile {
             props_pct: 30,
             max_conns: 6,
             dead_ops_max: 3,
+            dead_invalid_pct: 0,
             hostile_broker: false,
             will_pct: 10,
             auth_pct: 10,
@@ -747,7 +750,23 @@ impl Gen {
                 });
             }
             self.dead_ops -= 1;
-            // operations on a dead handle (must fail fast)
+            // operations on a dead handle (must fail fast) - also requests that a live handle
+            // would refuse as invalid: the dead handle answers first
+            if self.rng.chance(self.p.dead_invalid_pct, 100) {
+                let bad = match self.rng.below(4) {
+                    0 => Prop::ServerReference("x".into()),
+                    1 => Prop::TopicAlias(0),
+                    2 => Prop::SubscriptionId(0),
+                    _ => Prop::ReceiveMaximum(5),
+                };
+                let qos = self.rng.below(3) as u8;
+                return Some(match self.rng.below(5) {
+                    0 | 1 => Step::Publish(PubSpec { topic: "dead/invalid".into(), payload: PayloadSpec::Fill { len: 2, tag: 0xDEAD, ascii: false }, qos, retain: false, props: vec![bad], correlate: None, cancel_at: None }),
+                    2 => Step::Subscribe(SubSpec { filters: if self.rng.chance(1, 2) { vec![] } else { vec![FilterSpec { filter: "dead/#".into(), max_qos: 1, no_local: false, rap: false, rh: 0 }] }, props: vec![bad], cancel_at: None }),
+                    3 => Step::Unsubscribe(UnsubSpec { filters: if self.rng.chance(1, 2) { vec![] } else { vec!["dead".into()] }, props: vec![bad], cancel_at: None }),
+                    _ => Step::Disconnect(DiscSpec { reason: Some(0), props: Some(vec![bad]), cancel_at: None }),
+                });
+            }
             let s = self.live_step(v);
             return Some(match s {
                 Step::DropConn | Step::ForgetConn | Step::IntoInner | Step::Broker(_) | Step::Io { .. } | Step::Advance(_) => {
@@ -776,12 +795,14 @@ pub struct WithEpilogue<D> {
     pub tight_limits: bool,
     /// the broker has lost the session: the continuation's CONNACK reports no session
     pub force_fresh: bool,
+    /// (with `force_fresh`) Receive Maximum of the continuation = what the old session had in flight
+    pub fresh_small_window: bool,
     rt: std::collections::VecDeque<Step>,
 }
 
 impl<D> WithEpilogue<D> {
     pub fn new(inner: D, max_polls: usize) -> Self {
-        WithEpilogue { inner, stage: 0, polls: 0, max_polls, from_step: None, round_trip: false, tight_limits: false, force_fresh: false, rt: Default::default() }
+        WithEpilogue { inner, stage: 0, polls: 0, max_polls, from_step: None, round_trip: false, tight_limits: false, force_fresh: false, fresh_small_window: false, rt: Default::default() }
     }
 }
 
@@ -837,6 +858,16 @@ impl<D: Driver> Driver for WithEpilogue<D> {
                     self.stage = 3;
                     // resume iff the client is going to ask for it
                     let mut c = benign_connect(v.snap.session_present && !self.force_fresh);
+                    if self.force_fresh && self.fresh_small_window {
+                        // the broker that lost the session also announces a send window just as
+                        // large as what the old session had in flight
+                        let n = (v.snap.tx.retained.len() + v.snap.tx.release.len()).min(8) as u16;
+                        if n > 0 {
+                            if let ConnackSpec::Normal { props, .. } = &mut c.connack {
+                                props.push(Prop::ReceiveMaximum(n));
+                            }
+                        }
+                    }
                     if self.tight_limits {
                         let lens: Vec<usize> = v.snap.tx.retained.iter().map(|e| e.len).collect();
                         let pick = lens.iter().sum::<usize>() + v.snap.tx.release.len() + v.snap.tx.control.len();
